@@ -613,6 +613,7 @@ package raft
 //@   frame raft.raftLog: l
 //@   frame raft.unstable: &l.unstable
 //@   ensures #cursors log_cursors_kept(l) && l.storage == old(l.storage)
+//@   ensures #last-kept [C18] log_last(l) == old(log_last(l))
 //@   ensures #wf wf_raftLog(l)
 
 //@ func raft.raftLog.acceptUnstable [C05]
@@ -656,6 +657,7 @@ package raft
 //@ -- C07: the hard state (Term, Vote, commit) moves forward only: two-state invariant proved for every function that can write it
 //@ pred hs_monotone(r *raft) := r.Term >= old(r.Term) && (r.Term == old(r.Term) ==> (r.Vote == old(r.Vote) || old(r.Vote) == 0))
 //@     && r.raftLog.committed >= old(r.raftLog.committed) && r.raftLog == old(r.raftLog)
+//@     && r.trk.MaxInflight == old(r.trk.MaxInflight) && r.trk.MaxInflightBytes == old(r.trk.MaxInflightBytes)
 
 //@ pred isRespType(t pb.MessageType) := t == pb.MsgAppResp || t == pb.MsgVoteResp || t == pb.MsgPreVoteResp
 //@ pred isVoteType(t pb.MessageType) := t == pb.MsgVote || t == pb.MsgVoteResp || t == pb.MsgPreVote || t == pb.MsgPreVoteResp
@@ -668,6 +670,7 @@ package raft
 //@   requires #not-self [C14] !isRespType(m.GetType()) ==> m.GetTo() != r.id
 //@   frame raft.raft: r
 //@   frame raftpb.Message: m
+//@   ensures #reads-kept [C11] old(reads_wf(r)) ==> reads_wf(r)
 //@   ensures #routing-deferred [C05] isRespType(old(m.GetType())) ==> len(r.msgsAfterAppend) == old(len(r.msgsAfterAppend)) + 1
 //@        && r.msgsAfterAppend[old(len(r.msgsAfterAppend))] == m && r.msgs == old(r.msgs)
 //@   ensures #routing-immediate [C05] !isRespType(old(m.GetType())) ==> len(r.msgs) == old(len(r.msgs)) + 1
@@ -901,6 +904,7 @@ package raft
 //@   reveal wf_trk, wf_raftLog
 //@   frame tracker.Progress: pr
 //@   frame tracker.Inflights: pr.Inflights
+//@   ensures #log-cursors-kept [C08] log_cursors_kept(r.raftLog)
 //@   ensures #reads-kept [C11] old(reads_wf(r)) ==> reads_wf(r)
 //@   ensures #inactive-noop [C09] !old(pr.RecentActive) ==> !result && r.msgs == old(r.msgs) && pr.State == old(pr.State) && pr.Next == old(pr.Next) && pr.PendingSnapshot == old(pr.PendingSnapshot)
 //@   ensures #sent [C09 C16] result ==> pr.State == tracker.StateSnapshot && len(r.msgs) == old(len(r.msgs)) + 1 && lastMsg(r).GetType() == pb.MsgSnap && lastMsg(r).GetTo() == to
@@ -932,6 +936,7 @@ package raft
 //@   reveal wf_trk, wf_raftLog, wf_unstable, wf_storage
 //@   frame tracker.Progress: r.trk.Progress[to]
 //@   frame tracker.Inflights: r.trk.Progress[to].Inflights
+//@   ensures #log-cursors-kept [C08] log_cursors_kept(r.raftLog)
 //@   ensures #reads-kept [C11] old(reads_wf(r)) ==> reads_wf(r)
 //@   ensures #paused-noop [C16] old(r.trk.Progress[to].State == tracker.StateSnapshot || r.trk.Progress[to].MsgAppFlowPaused) ==> !result && r.msgs == old(r.msgs)
 //@        && r.trk.Progress[to].Next == old(r.trk.Progress[to].Next) && r.trk.Progress[to].State == old(r.trk.Progress[to].State)
@@ -959,6 +964,7 @@ package raft
 //@   reveal wf_trk
 //@   frame tracker.Progress: r.trk.Progress[to]
 //@   frame tracker.Inflights: r.trk.Progress[to].Inflights
+//@   ensures #log-cursors-kept [C08] log_cursors_kept(r.raftLog)
 //@   ensures #reads-kept [C11] old(reads_wf(r)) ==> reads_wf(r)
 //@   ensures #next-in-log [C14] progress_in_log(r, r.trk.Progress[to]) && log_last(r.raftLog) == old(log_last(r.raftLog))
 //@   ensures #at-most-one [C16] len(r.msgs) <= old(len(r.msgs)) + 1 && len(r.msgs) >= old(len(r.msgs))
@@ -979,6 +985,7 @@ package raft
 //@   after raft.raftLog.append assert #h-last result == old(log_last(r.raftLog)) + len(es) && log_last(r.raftLog) == result
 //@   after raft.raftLog.append assert #h-terms forall i int :: old(log_last(r.raftLog)) < i && i <= log_last(r.raftLog) ==> log_term(r.raftLog, i) == r.Term
 //@   after raft.raftLog.append assert #h-prefix forall i int :: i <= old(log_last(r.raftLog)) && old(log_has(r.raftLog, i)) ==> log_has(r.raftLog, i) && log_term(r.raftLog, i) == old(log_term(r.raftLog, i))
+//@   ensures #log-cursors-kept [C08] log_cursors_kept(r.raftLog)
 //@   ensures #reads-kept [C11] old(reads_wf(r)) ==> reads_wf(r)
 //@   ensures #dropped-untouched [C20 C16] !accepted ==> log_last(r.raftLog) == old(log_last(r.raftLog)) && r.msgs == old(r.msgs) && r.msgsAfterAppend == old(r.msgsAfterAppend)
 //@        && r.uncommittedSize == old(r.uncommittedSize) && r.raftLog.unstable.entries == old(r.raftLog.unstable.entries) && r.raftLog.unstable.offset == old(r.raftLog.unstable.offset)
@@ -1018,6 +1025,7 @@ package raft
 //@   visit 1 invariant #learner-kept forall id uint64 :: has(r.trk.Progress, id) ==> r.trk.Progress[id].IsLearner == old(r.trk.Progress[id].IsLearner)
 //@   visit 1 invariant #rest r.Term == term && r.raftLog == old(r.raftLog) && r.trk.Progress == old(r.trk.Progress) && wf_raftLog(r.raftLog) && r.id == old(r.id)
 //@        && r.lead == 0 && r.Vote == (term == old(r.Term) ? old(r.Vote) : 0) && r.trk.MaxInflight == old(r.trk.MaxInflight) && len(r.trk.Votes) == 0 && r.trk.Votes != nil
+//@   ensures #reads-kept [C11] old(reads_wf(r)) ==> reads_wf(r)
 //@   ensures #term-vote [C07 C02] r.Term == term && r.Vote == (term == old(r.Term) ? old(r.Vote) : 0)
 //@   ensures #cleared [C02 C10 C16] r.lead == 0 && r.electionElapsed == 0 && r.heartbeatElapsed == 0 && r.leadTransferee == 0 && r.pendingConfIndex == 0 && r.uncommittedSize == 0
 //@        && len(r.trk.Votes) == 0
@@ -1036,6 +1044,7 @@ package raft
 //@   requires wf_raft(r)
 //@   requires #term-not-lower [C07] term >= r.Term && term < 9223372036854775808 && r.trk.MaxInflight >= 1
 //@   requires #lead-not-self [C14] lead != r.id
+//@   ensures #reads-kept [C11] old(reads_wf(r)) ==> reads_wf(r)
 //@   ensures #follower [C02] r.state == StateFollower && r.lead == lead && r.Term == term && r.Vote == (term == old(r.Term) ? old(r.Vote) : 0)
 //@   ensures #cleared r.electionElapsed == 0 && r.leadTransferee == 0 && r.pendingConfIndex == 0 && r.uncommittedSize == 0 && len(r.trk.Votes) == 0
 //@   ensures #kept r.id == old(r.id) && r.raftLog == old(r.raftLog) && r.msgs == old(r.msgs) && r.msgsAfterAppend == old(r.msgsAfterAppend)
@@ -1046,6 +1055,7 @@ package raft
 //@   requires wf_raft(r)
 //@   requires #not-leader [C14] r.state != StateLeader
 //@   requires #a-arith r.Term + 1 < 9223372036854775808 && r.trk.MaxInflight >= 1
+//@   ensures #reads-kept [C11] old(reads_wf(r)) ==> reads_wf(r)
 //@   ensures #term-plus-one-vote-self [C02 C07] r.state == StateCandidate && r.Term == old(r.Term) + 1 && r.Vote == r.id && r.lead == 0 && len(r.trk.Votes) == 0
 //@   ensures #kept r.id == old(r.id) && r.raftLog == old(r.raftLog) && r.msgs == old(r.msgs) && r.msgsAfterAppend == old(r.msgsAfterAppend)
 //@        && r.raftLog.committed == old(r.raftLog.committed) && r.trk.Progress == old(r.trk.Progress) && log_last(r.raftLog) == old(log_last(r.raftLog))
@@ -1056,6 +1066,7 @@ package raft
 //@   requires #prevote-enabled [C17] r.preVote
 //@   requires #not-leader [C14] r.state != StateLeader
 //@   reveal wf_trk, trk_distinct
+//@   ensures #reads-kept [C11] old(reads_wf(r)) ==> reads_wf(r)
 //@   ensures #term-vote-unchanged [C17 C07] r.state == StatePreCandidate && r.Term == old(r.Term) && r.Vote == old(r.Vote) && r.lead == 0 && len(r.trk.Votes) == 0
 //@   ensures #kept r.id == old(r.id) && r.raftLog == old(r.raftLog) && r.msgs == old(r.msgs) && r.msgsAfterAppend == old(r.msgsAfterAppend)
 //@        && r.raftLog.committed == old(r.raftLog.committed) && r.trk.Progress == old(r.trk.Progress)
@@ -1071,6 +1082,7 @@ package raft
 //@   requires #term-not-behind-log [C03] log_term(r.raftLog, log_last(r.raftLog)) <= r.Term && r.Term >= 1
 //@   requires #a-arith log_last(r.raftLog) + 1 < 4611686018427387904 && r.trk.MaxInflight >= 1
 //@   reveal wf_trk, trk_distinct
+//@   ensures #reads-kept [C11] old(reads_wf(r)) ==> reads_wf(r)
 //@   ensures #leader [C02] r.state == StateLeader && r.lead == r.id && r.Term == old(r.Term) && r.Vote == old(r.Vote)
 //@   ensures #noop-entry [C04 C20] log_last(r.raftLog) == old(log_last(r.raftLog)) + 1 && log_term(r.raftLog, log_last(r.raftLog)) == r.Term
 //@   ensures #pending-conf [C10] r.pendingConfIndex == old(log_last(r.raftLog))
@@ -1089,6 +1101,7 @@ package raft
 //@ func raft.raft.poll [C02]
 //@   requires wf_raft(r)
 //@   reveal wf_trk
+//@   ensures #reads-kept [C11] old(reads_wf(r)) ==> reads_wf(r)
 //@   ensures #first-wins [C02] (old(has(r.trk.Votes, id)) ==> r.trk.Votes[id] == old(r.trk.Votes[id])) && (!old(has(r.trk.Votes, id)) ==> r.trk.Votes[id] == v) && has(r.trk.Votes, id)
 //@   ensures #others-kept [C02] forall k uint64 :: k != id ==> has(r.trk.Votes, k) == old(has(r.trk.Votes, k)) && r.trk.Votes[k] == old(r.trk.Votes[k])
 //@   ensures #tally [C02 C12] result == jointVoteSpec(r.trk.Voters, r.trk.Votes)
@@ -1113,6 +1126,7 @@ package raft
 //@   requires #prevote-won [C17] t != campaignPreElection && r.state == StatePreCandidate ==> jointVoteSpec(r.trk.Voters, r.trk.Votes) == quorum.VoteWon
 //@   requires #a-arith r.Term + 1 < 9223372036854775808 && r.trk.MaxInflight >= 1
 //@   reveal wf_raftLog, wf_unstable, wf_storage
+//@   ensures #reads-kept [C11] old(reads_wf(r)) ==> reads_wf(r)
 //@   ensures #pre-election [C17] t == campaignPreElection ==> r.state == StatePreCandidate && r.Term == old(r.Term) && r.Vote == old(r.Vote)
 //@   ensures #election [C02 C07] t != campaignPreElection ==> r.state == StateCandidate && r.Term == old(r.Term) + 1 && r.Vote == r.id
 //@   ensures #votes-empty [C02 C05] len(r.trk.Votes) == 0
@@ -1120,6 +1134,7 @@ package raft
 //@        && log_last(r.raftLog) == old(log_last(r.raftLog))
 //@   ensures #wf wf_raft(r) && hs_monotone(r) && typestate(r)
 //@   loop 1 invariant #ids len(ids) == iter && ids != nil
+//@   loop 2 invariant #reads old(reads_wf(r)) ==> reads_wf(r)
 //@   loop 2 invariant #state 0 <= iter && iter <= len(ids) && wf_raft(r) && typestate(r) && r.Term == (t == campaignPreElection ? old(r.Term) : old(r.Term) + 1) && r.Vote == (t == campaignPreElection ? old(r.Vote) : r.id)
 //@        && r.state == (t == campaignPreElection ? StatePreCandidate : StateCandidate) && len(r.trk.Votes) == 0 && r.id == old(r.id) && r.raftLog == old(r.raftLog)
 //@        && r.raftLog.committed == old(r.raftLog.committed) && r.trk.Progress == old(r.trk.Progress) && log_last(r.raftLog) == old(log_last(r.raftLog)) && term >= 1
@@ -1137,6 +1152,7 @@ package raft
 //@   requires #not-self [C14] m.GetFrom() != r.id
 //@   -- E-msg-wf: a leader never advertises a commit index above what it knows the follower holds (sendHeartbeat#post:commit-clamp)
 //@   requires #commit-in-log [C14 C06] m.GetCommit() <= log_last(r.raftLog)
+//@   ensures #reads-kept [C11] old(reads_wf(r)) ==> reads_wf(r)
 //@   ensures #commit-max [C06 C07] r.raftLog.committed == max(old(r.raftLog.committed), old(m.GetCommit()))
 //@   ensures #reply [C05] len(r.msgs) == old(len(r.msgs)) + 1 && r.msgsAfterAppend == old(r.msgsAfterAppend)
 //@        && r.msgs[old(len(r.msgs))].GetType() == pb.MsgHeartbeatResp && r.msgs[old(len(r.msgs))].GetTo() == old(m.GetFrom())
@@ -1158,6 +1174,7 @@ package raft
 //@   requires #no-committed-conflict [C14] matchesAt(r.raftLog, m.GetIndex(), m.GetLogTerm()) ==> (forall p int :: m.Entries.off <= p && p < m.Entries.off + len(m.Entries)
 //@        && eindex(elem(m.Entries, p)) <= r.raftLog.committed ==> matchesAt(r.raftLog, eindex(elem(m.Entries, p)), eterm(elem(m.Entries, p))))
 //@   reveal wf_raftLog
+//@   ensures #reads-kept [C11] old(reads_wf(r)) ==> reads_wf(r)
 //@   ensures #one-deferred-reply [C05] one_deferred_reply(r, old(m.GetFrom()), pb.MsgAppResp)
 //@   ensures #stale-below-commit [C06 C03] old(m.GetIndex() < r.raftLog.committed) ==> !lastDeferred(r).GetReject() && lastDeferred(r).GetIndex() == r.raftLog.committed
 //@        && r.raftLog.committed == old(r.raftLog.committed) && log_last(r.raftLog) == old(log_last(r.raftLog))
@@ -1210,6 +1227,7 @@ package raft
 //@   trusted
 //@   requires #wf wf_raft(r)
 //@   requires #trk-wf progressMap_wf(trk)
+//@   ensures #reads-kept [C11] old(reads_wf(r)) ==> reads_wf(r)
 //@   ensures #installed [C10] r.trk.Progress == trk && r.trk.Voters[0] == cfg.Voters[0] && r.trk.Voters[1] == cfg.Voters[1] && r.trk.Learners == cfg.Learners
 //@        && r.trk.LearnersNext == cfg.LearnersNext && r.trk.AutoLeave == cfg.AutoLeave && r.isLearner == (has(trk, r.id) && trk[r.id].IsLearner)
 //@   ensures #non-leader-rest old(r.state) != StateLeader ==> raft_kept_but_msgs(r) && r.msgs == old(r.msgs) && r.msgsAfterAppend == old(r.msgsAfterAppend)
@@ -1225,6 +1243,7 @@ package raft
 //@   requires #a-arith snapIndex(s) < 4611686018427387904 && r.Term + 1 < 9223372036854775808 && r.trk.MaxInflight >= 1
 //@   requires #valid-confstate [C14] s.Metadata != nil && s.Metadata.ConfState != nil ==> confStateOK(s.Metadata.ConfState)
 //@   reveal wf_raftLog, wf_trk, trk_distinct
+//@   ensures #reads-kept [C11] old(reads_wf(r)) ==> reads_wf(r)
 //@   ensures #obsolete-ignored [C09 C07] old(snapIndex(s) <= r.raftLog.committed) ==> !result && raft_kept_but_msgs(r) && log_cursors_kept(r.raftLog)
 //@        && r.raftLog.unstable.snapshot == old(r.raftLog.unstable.snapshot) && r.raftLog.unstable.entries == old(r.raftLog.unstable.entries)
 //@        && r.raftLog.unstable.offset == old(r.raftLog.unstable.offset) && r.trk.Progress == old(r.trk.Progress)
@@ -1261,6 +1280,7 @@ package raft
 //@   requires #a-arith snapIndex(m.Snapshot) < 4611686018427387904 && r.Term + 1 < 9223372036854775808 && r.trk.MaxInflight >= 1
 //@   requires #snap-wf [C14] snap_populated(m.Snapshot) && confStateOK(m.Snapshot.Metadata.ConfState)
 //@   reveal wf_raftLog
+//@   ensures #reads-kept [C11] old(reads_wf(r)) ==> reads_wf(r)
 //@   ensures #one-deferred-reply [C05] len(r.msgsAfterAppend) == old(len(r.msgsAfterAppend)) + 1 && r.msgs == old(r.msgs)
 //@        && lastDeferred(r).GetType() == pb.MsgAppResp && lastDeferred(r).GetTo() == old(m.GetFrom()) && !lastDeferred(r).GetReject()
 //@   ensures #ack-is-commit [C06 C09] lastDeferred(r).GetIndex() == r.raftLog.committed && r.raftLog.committed <= log_last(r.raftLog)
@@ -1272,14 +1292,16 @@ package raft
 //@ -- ------------------------------------------------------------------------------------------
 //@ -- raft.go: campaigning is gated (C10: not while a committed configuration change is unapplied; C17: only promotable non-leaders)
 
-//@ pred node_unchanged(r *raft) := raft_kept_but_msgs(r) && r.msgs == old(r.msgs) && r.msgsAfterAppend == old(r.msgsAfterAppend) && log_cursors_kept(r.raftLog)
+//@ pred node_unchanged(r *raft) := raft_kept_but_msgs(r) && r.msgs == old(r.msgs) && r.msgsAfterAppend == old(r.msgsAfterAppend) && log_cursors_kept(r.raftLog) && r.uncommittedSize == old(r.uncommittedSize)
+//@     && log_last(r.raftLog) == old(log_last(r.raftLog))
 //@     && r.trk.Progress == old(r.trk.Progress) && r.trk.Votes == old(r.trk.Votes) && r.electionElapsed == old(r.electionElapsed)
 
 //@ func raft.raft.hup [C10 C17 C02 C07]
 //@   requires wf_raft(r)
 //@   requires #prevote-not-skipped [C17] (t == campaignPreElection ==> r.preVote) && (r.state == StatePreCandidate ==> t == campaignPreElection)
 //@   requires #a-arith r.Term + 1 < 9223372036854775808 && r.trk.MaxInflight >= 1
-//@   ensures #leader-ignores [C02] old(r.state) == StateLeader ==> node_unchanged(r)
+//@   ensures #reads-kept [C11] old(reads_wf(r)) ==> reads_wf(r)
+//@   ensures #leader-ignores [C02] old(r.state) == StateLeader ==> node_unchanged(r) && (old(wf_leader(r)) ==> wf_leader(r))
 //@   ensures #unpromotable-ignored [C17 C10] old(!r.promotable()) ==> node_unchanged(r)
 //@   ensures #conf-gate [C10] old(r.raftLog.applied < r.raftLog.committed && confChangeIn(r.raftLog, r.raftLog.applied + 1, r.raftLog.committed + 1)) ==> node_unchanged(r)
 //@   ensures #campaigns [C02 C17] r.Term != old(r.Term) || r.state != old(r.state) ==> old(r.state != StateLeader && r.promotable())
@@ -1311,12 +1333,14 @@ package raft
 //@   -- a forwarded local message carries no term (a follower never receives one that another node already stamped: election safety)
 //@   requires #forward-term-unset [C14] fwd_type(m.GetType()) && r.lead != 0 ==> m.GetTerm() == 0
 //@   reveal wf_readOnly
+//@   ensures #reads-kept [C11] old(reads_wf(r)) ==> reads_wf(r)
 //@   ensures #prop-dropped [C20] old(m.GetType() == pb.MsgProp && (r.lead == 0 || r.disableProposalForwarding)) ==> result == ErrProposalDropped && node_unchanged(r)
 //@   ensures #prop-forwarded [C20] old(m.GetType() == pb.MsgProp && r.lead != 0 && !r.disableProposalForwarding) ==> result == nil && len(r.msgs) == old(len(r.msgs)) + 1
 //@        && r.msgs[old(len(r.msgs))] == m && m.GetTo() == r.lead && m.GetType() == pb.MsgProp && m.Entries == old(m.Entries) && r.msgsAfterAppend == old(r.msgsAfterAppend)
-//@        && log_cursors_kept(r.raftLog) && log_last(r.raftLog) == old(log_last(r.raftLog))
+//@        && log_cursors_kept(r.raftLog) && log_last(r.raftLog) == old(log_last(r.raftLog)) && r.uncommittedSize == old(r.uncommittedSize)
 //@   ensures #leader-contact [C17] old(m.GetType() == pb.MsgApp || m.GetType() == pb.MsgHeartbeat || m.GetType() == pb.MsgSnap) ==> r.electionElapsed == 0 && r.lead == old(m.GetFrom())
 //@   ensures #term-vote-kept [C07 C17] old(m.GetType()) != pb.MsgTimeoutNow ==> r.Term == old(r.Term) && r.Vote == old(r.Vote) && r.state == StateFollower
+//@   ensures #never-leader [C02] r.state != StateLeader
 //@   ensures #timeout-now [C17] old(m.GetType()) == pb.MsgTimeoutNow && r.Term != old(r.Term) ==> r.state == StateCandidate && r.Term == old(r.Term) + 1 && r.Vote == r.id
 //@   ensures #forget-leader [C17] old(m.GetType()) == pb.MsgForgetLeader ==> r.lead == (old(r.readOnly.option) == ReadOnlyLeaseBased ? old(r.lead) : 0)
 //@   ensures #read-index-resp [C11] old(m.GetType() == pb.MsgReadIndexResp && len(m.Entries) == 1) ==> len(r.readStates) == old(len(r.readStates)) + 1
@@ -1338,8 +1362,10 @@ package raft
 //@   visit 1 invariant #state wf_raft(r) && raft_kept_but_msgs(r) && r.msgsAfterAppend == old(r.msgsAfterAppend) && r.raftLog.committed == old(r.raftLog.committed)
 //@        && len(r.msgs) >= old(len(r.msgs)) && log_last(r.raftLog) == old(log_last(r.raftLog))
 //@   visit 1 invariant #in-log wf_leader(r)
+//@   visit 1 invariant #cursors log_cursors_kept(r.raftLog)
 //@   visit 1 invariant #outbox-frame frameexcept("E$*raftpb.Message", old(r.msgs), old(r.msgsAfterAppend)) && frameexcept("F$raftpb.Message")
 //@   visit 1 invariant #matches matches_kept(r)
+//@   ensures #log-cursors-kept [C08] log_cursors_kept(r.raftLog)
 //@   ensures #reads-kept [C11] old(reads_wf(r)) ==> reads_wf(r)
 //@   ensures #deferred-untouched [C05] r.msgsAfterAppend == old(r.msgsAfterAppend) && len(r.msgs) >= old(len(r.msgs))
 //@   ensures #match-kept [C06] matches_kept(r)
@@ -1358,6 +1384,7 @@ package raft
 //@   requires #same-term [C14] m.GetType() == pb.MsgApp || m.GetType() == pb.MsgHeartbeat || m.GetType() == pb.MsgSnap ==> m.GetTerm() == r.Term
 //@   requires #member [C14] candidate_member(r)
 //@   requires #term-not-behind-log [C03 C14] term_ge_log(r) && (r.state == StateCandidate ==> r.Term >= 1)
+//@   ensures #reads-kept [C11] old(reads_wf(r)) ==> reads_wf(r)
 //@   ensures #prop-dropped [C20] old(m.GetType()) == pb.MsgProp ==> result == ErrProposalDropped && node_unchanged(r)
 //@   ensures #steps-down-for-leader [C02 C04] old(m.GetType() == pb.MsgApp || m.GetType() == pb.MsgHeartbeat || m.GetType() == pb.MsgSnap) ==> r.state == StateFollower
 //@        && r.lead == old(m.GetFrom()) && r.Term == old(r.Term) && r.Vote == old(r.Vote)
@@ -1588,6 +1615,8 @@ package raft
 //@   ensures #conf-gate [C10] old(m.GetType()) == pb.MsgProp && r.pendingConfIndex != old(r.pendingConfIndex) ==> (r.disableConfChangeValidation || old(r.pendingConfIndex) <= r.raftLog.applied)
 //@   ensures #conf-index [C10] old(m.GetType()) == pb.MsgProp && r.pendingConfIndex != old(r.pendingConfIndex) ==>
 //@        (exists j int :: 0 <= j && j < old(len(m.Entries)) && r.pendingConfIndex == old(log_last(r.raftLog)) + 1 + j && old(isConfEntry(elem(m.Entries, m.Entries.off + j))))
+//@   ensures #prop-keeps-cursors [C08 C20] old(m.GetType()) == pb.MsgProp ==> log_cursors_kept(r.raftLog) && r.state == StateLeader
+//@        && (log_last(r.raftLog) == old(log_last(r.raftLog)) ==> r.uncommittedSize == old(r.uncommittedSize))
 //@   ensures #conf-only-on-prop [C10] old(m.GetType()) != pb.MsgProp && r.state == StateLeader ==> r.pendingConfIndex == old(r.pendingConfIndex)
 //@   ensures #read-not-before-own-term-commit [C11] old(m.GetType() == pb.MsgReadIndex && !(len(r.trk.Voters[0]) == 1 && len(r.trk.Voters[1]) == 0) && !r.committedEntryInCurrentTerm()) ==>
 //@        len(r.pendingReadIndexMessages) == old(len(r.pendingReadIndexMessages)) + 1 && r.pendingReadIndexMessages[old(len(r.pendingReadIndexMessages))] == m
@@ -1598,4 +1627,99 @@ package raft
 //@   ensures #hs [C07] hs_monotone(r)
 //@   ensures #typestate typestate(r)
 //@   ensures #leader-inv-kept r.state == StateLeader ==> wf_leader(r)
-//@   ensures #reads-wf-kept r.state == StateLeader ==> reads_wf(r)
+//@   ensures #reads-wf-kept reads_wf(r)
+
+//@ -- ------------------------------------------------------------------------------------------
+//@ -- raft.go: acknowledgements from the local storage threads, and Step itself
+
+//@ -- T-lib (protobuf): empty input decodes (to the zero message)
+//@ axiom #dataOK-empty forall a int, o int :: dataOK(a, o, 0)
+
+//@ -- ASSUMED (listed in the evidence): the snapshot acknowledgement path. Between stableSnapTo and appliedTo the log invariant
+//@ -- is suspended (applied lags the installed snapshot), which the contracts built so far do not express.
+//@ func raft.raft.appliedSnap [C09 C08]
+//@   trusted
+//@   requires wf_raft(r) && snap != nil
+//@   ensures #reads-kept [C11] old(reads_wf(r)) ==> reads_wf(r)
+//@   ensures #snapshot-cleared [C09] old(r.raftLog.unstable.snapshot != nil && snapIndex(r.raftLog.unstable.snapshot) == snapIndex(snap)) ==> r.raftLog.unstable.snapshot == nil
+//@   ensures #applied-monotone [C08] r.raftLog.applied == max(old(r.raftLog.applied), snapIndex(snap)) && r.raftLog.committed == old(r.raftLog.committed)
+//@   ensures #rest r.Term == old(r.Term) && r.Vote == old(r.Vote) && r.raftLog.unstable.entries == old(r.raftLog.unstable.entries) && r.raftLog.unstable.offset == old(r.raftLog.unstable.offset)
+//@        && raft_kept_but_msgs(r) && r.msgs == old(r.msgs) && r.msgsAfterAppend == old(r.msgsAfterAppend) && log_last(r.raftLog) == old(log_last(r.raftLog)) && r.uncommittedSize == old(r.uncommittedSize)
+//@        && (old(wf_leader(r)) ==> wf_leader(r))
+//@   ensures #wf wf_raft(r) && hs_monotone(r) && typestate(r)
+
+//@ pred node_inv(r *raft) := wf_raft(r) && typestate(r) && r.trk.MaxInflight >= 1 && reads_wf(r)
+//@     && (r.state == StateLeader ==> wf_leader(r))
+//@ -- invariants the contracts rely on but do not yet re-establish (listed as assumptions of Step): the log never runs ahead of
+//@ -- the term, a campaigning node is a member, a leader has a term
+//@ pred node_inv_assumed(r *raft) := term_ge_log(r) && candidate_member(r) && (r.state == StateLeader || r.state == StateCandidate ==> r.Term >= 1)
+//@     && r.Term + 1 < 9223372036854775808 && log_last(r.raftLog) + 1 < 4611686018427387904 && r.uncommittedSize < 4611686018427387904
+//@     && (r.Term == 0 ==> log_last(r.raftLog) == 0)
+//@     && r.readOnly.confirmedReads + len(r.readOnly.unconfirmedReads) + len(r.pendingReadIndexMessages) + 1 < 4611686018427387904
+
+//@ pred storage_ack_wf(r *raft, m *pb.Message) := (m.GetType() == pb.MsgStorageApplyResp ==> m.GetTerm() == 0) && (m.GetType() == pb.MsgStorageAppendResp ==> m.GetTerm() <= r.Term) &&
+//@     (m.GetType() == pb.MsgStorageApplyResp && len(m.Entries) > 0 ==> m.Entries[len(m.Entries) - 1] != nil && eindex(m.Entries[len(m.Entries) - 1]) <= r.raftLog.committed)
+//@     && (m.GetType() == pb.MsgStorageAppendResp && m.GetIndex() != 0 ==> append_ack_wf(r.raftLog, m.GetIndex(), m.GetLogTerm()))
+//@ -- E-ready-contract: an acknowledgement that matches the unstable log is only delivered after those entries reached storage
+//@ pred append_ack_wf(l *raftLog, index uint64, term uint64) :=
+//@     ((index >= l.unstable.offset && index < l.unstable.offset + len(l.unstable.entries) && eterm(l.unstable.entries[index - l.unstable.offset]) == term && l.unstable.snapshot == nil) ==>
+//@        (st_last(l.storage) >= index && (index + 1 == l.unstable.offset + len(l.unstable.entries) ==> st_last(l.storage) == index) && st_term(l.storage, index) == term))
+//@     && (l.unstable.snapshot != nil ==> index < l.unstable.offset || !(index < l.unstable.offset + len(l.unstable.entries) && eterm(l.unstable.entries[index - l.unstable.offset]) == term))
+
+//@ pred step_msg_wf(r *raft, m *pb.Message) := leader_msg_wf(r, m) && m.GetTerm() + 1 < 9223372036854775808
+//@     && (isVoteReq(m.GetType()) ==> m.GetTerm() != 0)
+//@     && (fwd_type(m.GetType()) && r.state == StateFollower && r.lead != 0 ==> m.GetTerm() != r.Term)
+//@     && (r.state == StateLeader && (m.GetTerm() == 0 || m.GetTerm() == r.Term) ==> leader_msg_in_wf(r, m))
+//@     && storage_ack_wf(r, m)
+//@     && ((m.GetType() == pb.MsgApp || m.GetType() == pb.MsgHeartbeat || m.GetType() == pb.MsgSnap) ==> m.GetTerm() != 0)
+
+//@ spec inLease(r *raft) bool := r.checkQuorum && r.lead != 0 && r.electionElapsed < r.electionTimeout
+//@ pred isVoteReq(t pb.MessageType) := t == pb.MsgVote || t == pb.MsgPreVote
+//@ spec lastTerm(r *raft) uint64 := log_term(r.raftLog, log_last(r.raftLog))
+//@ pred candUpToDate(r *raft, m *pb.Message) := m.GetLogTerm() > lastTerm(r) || (m.GetLogTerm() == lastTerm(r) && m.GetIndex() >= log_last(r.raftLog))
+
+//@ func raft.raft.appliedTo [C08 C10 C14]
+//@   reveal wf_raftLog
+//@   requires node_inv(r) && node_inv_assumed(r)
+//@   requires #range [C14 C08] index <= r.raftLog.committed
+//@   ensures #applied-monotone [C08] r.raftLog.applied == max(old(r.raftLog.applied), index) && r.raftLog.applying == max(old(r.raftLog.applying), r.raftLog.applied)
+//@        && r.raftLog.committed == old(r.raftLog.committed)
+//@   ensures #auto-leave-only-leader [C10] log_last(r.raftLog) != old(log_last(r.raftLog)) ==> old(r.trk.AutoLeave && r.state == StateLeader) && r.raftLog.applied >= old(r.pendingConfIndex)
+//@        && log_last(r.raftLog) == old(log_last(r.raftLog)) + 1
+//@   ensures #rest r.Term == old(r.Term) && r.Vote == old(r.Vote) && r.state == old(r.state)
+//@   ensures #uncommitted-kept [C16] log_last(r.raftLog) == old(log_last(r.raftLog)) ==> r.uncommittedSize == old(r.uncommittedSize)
+//@   ensures #entries-untouched !old(r.trk.AutoLeave && r.state == StateLeader) ==> sameheap("E$*raftpb.Entry", "F$raftpb.Entry", "E$uint8", "F$raftpb.Message.Entries")
+//@        && log_last(r.raftLog) == old(log_last(r.raftLog))
+//@   ensures #wf node_inv(r) && hs_monotone(r)
+
+//@ func raft.raft.Step [C02 C04 C05 C06 C07 C10 C16 C17 C20 C14]
+//@   requires #m-nil-or-inv m != nil ==> node_inv(r) && node_inv_assumed(r)
+//@   requires #msg-wf [C14] m != nil ==> step_msg_wf(r, m)
+//@   case m == nil || m.GetTerm() == 0
+//@   case m != nil && m.GetTerm() != 0 && m.GetTerm() < r.Term
+//@   case m != nil && m.GetTerm() > r.Term
+//@   case m != nil && m.GetTerm() != 0 && m.GetTerm() == r.Term
+//@   ensures #nil-msg m == nil ==> result != nil
+//@   ensures #hs-monotone [C07] m != nil ==> hs_monotone(r)
+//@   ensures #in-lease-ignored [C17] m != nil && old(m.GetTerm() > r.Term && isVoteReq(m.GetType()) && inLease(r) && len(m.Context) != 16) ==> result == nil && node_unchanged(r)
+//@   ensures #prevote-changes-nothing [C17 C07] m != nil && old(m.GetType()) == pb.MsgPreVote ==> raft_kept_but_msgs(r) && r.msgs == old(r.msgs) && log_cursors_kept(r.raftLog)
+//@   ensures #stale-term-ignored [C07 C03] m != nil && old(m.GetTerm() != 0 && m.GetTerm() < r.Term) ==> result == nil && r.Term == old(r.Term) && r.Vote == old(r.Vote) && r.state == old(r.state)
+//@        && r.lead == old(r.lead) && r.raftLog.committed == old(r.raftLog.committed) && r.raftLog.unstable.entries == old(r.raftLog.unstable.entries) && r.raftLog.unstable.offset == old(r.raftLog.unstable.offset)
+//@        && r.msgs == old(r.msgs)
+//@   ensures #vote-needs-up-to-date-log [C02 C04] m != nil && old(m.GetType()) == pb.MsgVote && r.Vote == old(m.GetFrom()) && old(m.GetFrom()) != 0 && !(r.Term == old(r.Term) && r.Vote == old(r.Vote))
+//@        ==> old(candUpToDate(r, m))
+//@   ensures #vote-replies-deferred [C05] m != nil && old(isVoteReq(m.GetType())) ==> r.msgs == old(r.msgs)
+//@   ensures #term-rule [C07 C17] m != nil && r.Term != old(r.Term) ==> r.Term > old(r.Term)
+//@        && ((old(m.GetTerm() > r.Term) && old(m.GetType()) != pb.MsgPreVote && !(old(m.GetType()) == pb.MsgPreVoteResp && !old(m.GetReject()))
+//@             && (r.Term == old(m.GetTerm()) || (r.Term == old(m.GetTerm()) + 1 && r.state == StateCandidate && r.Vote == r.id)))
+//@            || (r.Term == old(r.Term) + 1 && r.state == StateCandidate && r.Vote == r.id))
+//@   ensures #apply-ack [C16 C08] m != nil && old(m.GetTerm() == 0 && m.GetType() == pb.MsgStorageApplyResp && len(m.Entries) > 0) ==>
+//@        old(r.trk.AutoLeave && r.state == StateLeader) ||
+//@        r.uncommittedSize == (old(sumpay(m.Entries, len(m.Entries))) > old(r.uncommittedSize) ? 0 : old(r.uncommittedSize) - old(sumpay(m.Entries, len(m.Entries))))
+//@   ensures #prop-keeps-hardstate [C20 C07 C08] m != nil && old(m.GetType()) == pb.MsgProp && old(m.GetTerm()) == 0 ==> r.Term == old(r.Term) && r.Vote == old(r.Vote) && r.state == old(r.state)
+//@        && log_cursors_kept(r.raftLog) && (log_last(r.raftLog) == old(log_last(r.raftLog)) || (old(r.state) == StateLeader && result == nil && log_last(r.raftLog) == old(log_last(r.raftLog)) + len(m.Entries)))
+//@        && (log_last(r.raftLog) == old(log_last(r.raftLog)) ==> r.uncommittedSize == old(r.uncommittedSize))
+//@   ensures #wf m != nil ==> wf_raft(r)
+//@   ensures #typestate m != nil ==> typestate(r)
+//@   ensures #reads-wf [C11] m != nil ==> reads_wf(r)
+//@   ensures #leader-inv [C06] m != nil && r.state == StateLeader ==> wf_leader(r)
